@@ -77,7 +77,145 @@ enum Item {
     Err(String),
 }
 
+/// The readers inside a whole clone: `bita clone` (or the library flow) over HTTP against a
+/// server with transient failures that stay within `--http-retry-count` per request. Faults
+/// within the budget must be invisible in the result -- success, output == source, every write
+/// one source chunk at its offset and none twice (a chunk delivered before the cut is not
+/// delivered again after the resume) -- and visible in the request log exactly as the
+/// property says: each run of adjacent missing chunks is asked for once, every re-request
+/// starts at the first byte the server has not delivered yet and ends at the run's end, and
+/// `--http-retry-delay` of virtual time passes before it.
+fn run_e2e(ctx: &mut Ctx) {
+    use crate::props::clonefam::{self, ExecExtra, Which};
+    let Some(mut f) = clonefam::generate(ctx, Which::C06) else { return };
+    f.http = true;
+    f.verify_output = false;
+    let retries = 1 + gen::draw(3);
+    let retry_delay = *gen::t(|t| t.pick(&[0u64, 1, 1, 10, 3600]));
+    let n_desc = f.ra.dict.descriptors.len();
+    let script_len = (16 + 4 * n_desc).min(4000);
+    let rate = *gen::t(|t| t.pick(&[2u32, 3, 5]));
+    let mut script: Vec<Option<NetFault>> = Vec::with_capacity(script_len);
+    let mut planned = 0usize;
+    while script.len() < script_len {
+        if gen::chance(1, rate) {
+            let burst = 1 + gen::draw(retries) as usize;
+            for _ in 0..burst {
+                let fault = match gen::t(|t| t.weighted(&[2, 3, 2, 1])) {
+                    0 => NetFault::Refuse,
+                    1 => NetFault::CutAfter(gen::draw(9) as usize),
+                    2 => NetFault::CutAfter(gen::draw(5000) as usize),
+                    _ => NetFault::CutAfter(gen::draw(200_000) as usize),
+                };
+                script.push(Some(fault));
+                planned += 1;
+            }
+        }
+        script.push(None);
+    }
+    let extra = ExecExtra { net_script: script, retries, retry_delay, ..Default::default() };
+    let ob = clonefam::execute_with(&f, None, &extra);
+    let desc = json!({"mode": "clone over a flaky network", "http_retry_count": retries, "http_retry_delay_s": retry_delay, "faults_planned": planned, "scenario": f.desc});
+    if ctx.want_sample {
+        ctx.verdict.sample = Some(desc.clone());
+    }
+    let outcome = ob.outcome.clone().unwrap();
+    if !outcome.is_success() {
+        ctx.fail(&format!("e2e-clone-outcome:{}", outcome.class()), format!("every request met at most {} consecutive failures, --http-retry-count is {}, yet the clone ended with {}; {}", retries, retries, outcome.short(), desc));
+        return;
+    }
+    let before = ctx.failed();
+    if !clonefam::check_output(ctx, &f, &ob) {
+        if !before && ctx.failed() {
+            if let Some(v) = ctx.verdict.violation.as_mut() {
+                v.class = format!("e2e-{}", v.class);
+            }
+        }
+        return;
+    }
+    clonefam::check_writes(ctx, &f, &ob);
+    if ctx.failed() {
+        if let Some(v) = ctx.verdict.violation.as_mut() {
+            v.class = format!("e2e-{}", v.class);
+        }
+        return;
+    }
+    let ex = clonefam::expect(&f);
+    if ex.collision || clonefam::truncated_twins(&f.ra) {
+        simkit::count("hash-collision-exempt");
+        return;
+    }
+    // expected runs (first byte, last byte), in archive order
+    let mut runs: Vec<(u64, u64)> = Vec::new();
+    for (i, d) in f.ra.dict.descriptors.iter().enumerate() {
+        if !ex.fetch.contains(&i) || d.archive_size == 0 {
+            continue;
+        }
+        let start = f.ra.chunk_data_offset + d.archive_offset;
+        let end = start + d.archive_size as u64 - 1;
+        match runs.last_mut() {
+            Some(last) if last.1 + 1 == start => last.1 = end,
+            _ => runs.push((start, end)),
+        }
+    }
+    let data: Vec<&crate::net::LoggedRequest> = ob.http_log.iter().filter(|l| l.parsed.map(|(_, b)| b >= f.ra.header_len as u64).unwrap_or(true)).collect();
+    let mut k = 0usize;
+    let mut failures_seen = 0usize;
+    for &(start, end) in &runs {
+        let mut cur = start;
+        let mut failed_at: Option<u64> = None;
+        loop {
+            let Some(l) = data.get(k) else {
+                ctx.fail("e2e-request-sequence", format!("the request log ends before the run {}-{} was asked for from byte {} ({} chunk-data requests); {}", start, end, cur, data.len(), desc));
+                return;
+            };
+            k += 1;
+            if l.parsed != Some((cur, end)) {
+                ctx.fail(
+                    "e2e-request-sequence",
+                    format!("chunk-data request {} is {:?}; expected bytes={}-{} (run {}-{}, {} bytes of it delivered so far): every run is asked for once and a re-request resumes at the first byte not yet received; {}", k - 1, l.range, cur, end, start, end, cur - start, desc),
+                );
+                return;
+            }
+            if let Some(t) = failed_at {
+                if l.time_ns < t + retry_delay * 1_000_000_000 {
+                    ctx.fail("e2e-retry-delay", format!("the re-request {:?} came {} ns after the failed request, --http-retry-delay is {} s; {}", l.range, l.time_ns - t, retry_delay, desc));
+                    return;
+                }
+            }
+            let remaining = end - cur + 1;
+            let got = match &l.fault {
+                None => remaining,
+                Some(NetFault::CutAfter(c)) => (*c as u64).min(remaining),
+                Some(_) => 0,
+            };
+            if got == remaining {
+                break;
+            }
+            failures_seen += 1;
+            simkit::count("fault:E2eTransferFailureResumed");
+            cur += got;
+            failed_at = Some(l.time_ns);
+        }
+    }
+    if k != data.len() {
+        ctx.fail("e2e-request-sequence", format!("{} chunk-data requests beyond the {} the runs and their resumptions account for (first: {:?}); {}", data.len() - k, k, data[k].range, desc));
+        return;
+    }
+    if failures_seen > 0 {
+        simkit::count("probe:e2e-clone-resumed-a-run");
+    }
+    simkit::count("e2e-clones-over-a-flaky-network");
+    ctx.verdict.nontrivial = failures_seen > 0;
+    ctx.verdict.shape = (runs.len() as u64) ^ ((failures_seen as u64) << 16) ^ ((f.level2 as u64) << 40) ^ (1 << 41);
+}
+
 pub fn run(ctx: &mut Ctx) {
+    // one run in 50: the readers inside a whole clone over a flaky network
+    if gen::chance(1, 50) {
+        run_e2e(ctx);
+        return;
+    }
     let big = gen::chance(1, if ctx.tier == crate::harness::Tier::Thorough { 25 } else { 400 });
     let n = if big { (3 << 20) + gen::draw(1 << 20) as usize } else { 1 + gen::draw(100_000) as usize };
     let mut content = vec![0u8; n];
